@@ -444,9 +444,11 @@ pub fn coordinator(args: CoordArgs) -> i32 {
         .map(|rd| rd.flatten().map(|e| e.path()).filter(|p| p.extension().map(|e| e == "json").unwrap_or(false)).collect())
         .unwrap_or_default();
     reg_files.sort();
+    // all regression replays run concurrently (each in its own process), results are read in order
+    let mut reg_children: Vec<Option<std::process::Child>> = vec![];
     for rf in &reg_files {
         let outp = run_dir.join(format!("reg-{}.out", rf.file_stem().unwrap().to_string_lossy()));
-        let status = std::process::Command::new(exe())
+        let child = std::process::Command::new(exe())
             .arg("--replay-worker")
             .arg(rf)
             .arg("--out")
@@ -456,7 +458,16 @@ pub fn coordinator(args: CoordArgs) -> i32 {
             .env("VERIF_CACHE", reg_cache_of(rf))
             .stdout(std::process::Stdio::null())
             .stderr(std::process::Stdio::null())
-            .status();
+            .spawn()
+            .ok();
+        reg_children.push(child);
+    }
+    for (ri, rf) in reg_files.iter().enumerate() {
+        let outp = run_dir.join(format!("reg-{}.out", rf.file_stem().unwrap().to_string_lossy()));
+        let status: Result<std::process::ExitStatus, ()> = match reg_children[ri].take() {
+            Some(mut c) => c.wait().map_err(|_| ()),
+            None => Err(()),
+        };
         let v: Value = std::fs::read_to_string(&outp)
             .ok()
             .and_then(|s| serde_json::from_str(&s).ok())
